@@ -159,7 +159,22 @@ def describe(schema, identity=False, descriptions=True):
         (r.name if r is not None else None)
         for r in (schema.query_type, schema.mutation_type,
                   schema.subscription_type))
-    return {"types": types, "directives": directives, "roots": roots}
+    out = {"types": types, "directives": directives, "roots": roots}
+    if identity:
+        # the resolver registry carried by the schema object
+        out["registry"] = {
+            "resolvers": {t: {f: id(fn) for f, fn in sorted(fs.items())}
+                          for t, fs in sorted(schema.resolvers.items())},
+            "subscriptions": {
+                t: {f: id(fn) for f, fn in sorted(fs.items())}
+                for t, fs in sorted(schema.subscriptions.items())},
+            "default_resolvers": {
+                t: id(fn) for t, fn in sorted(
+                    schema.default_resolvers.items())},
+            "default_resolver": id(schema.default_resolver)
+            if schema.default_resolver else None,
+        }
+    return out
 
 
 def diff(a, b, path=()):
